@@ -403,7 +403,9 @@ def _copyset_iter(fn: ast.FunctionDef) -> tuple[str, dict]:
             return 'ELive'
         if isinstance(e, ast.Name) and e.id == cur:
             return 'ECur'
-        if isinstance(e, ast.Call) and isinstance(e.func, ast.Name) and e.func.id in ('frozenset', 'set', 'list', 'tuple') \
+        # frozenset(self) / set(self) copy the hash table directly; list(self) / tuple(self) would call this very
+        # __iter__ again (unbounded recursion) and are therefore not accepted
+        if isinstance(e, ast.Call) and isinstance(e.func, ast.Name) and e.func.id in ('frozenset', 'set') \
                 and len(e.args) == 1 and not e.keywords and is_self(e.args[0]):
             return 'ESnap'
         if isinstance(e, ast.BinOp) and isinstance(e.op, ast.Sub) and is_self(e.left) and isinstance(e.right, ast.Name) and e.right.id == cur:
